@@ -44,6 +44,8 @@
 (* after a failed honesty check keeps challenging and finally reports the ordinary aggregate.  OnceOnly = TRUE  *)
 (* is the repaired behaviour, OnceOnly = FALSE the pinned one (violates VerifyOnce / ResultConsistent).         *)
 (* Other control switches: CheckPeer, CheckHash, AskConsent (FALSE = a plausible wrong implementation).         *)
+(* Time: every cache carries its deadline (now + 120 s, pending challenges now + 10 s); time-outs fire in       *)
+(* deadline order on one shared clock, Tick lets time pass without a time-out.                                  *)
 EXTENDS Integers, Sequences, FiniteSets, TLC
 
 CONSTANTS Nodes,        \* node ids (naturals)
@@ -56,6 +58,8 @@ CONSTANTS Nodes,        \* node ids (naturals)
           Pre,          \* attestations that exist at the start: sequence of [owner, by, ans]; hash i, key i
           MaxReq, MaxVer, MaxHon, MaxDup, MaxDrop, MaxAdv, MaxTimeouts, MaxTicks,
           TickSteps,    \* amounts of time that may pass without a time-out
+          AdvKinds,     \* what the adversary may send: subset of {"junk", "data", "resp", "chal"}
+          AdvResps,     \* response values the adversary may send (subset of 0..3)
           OnceOnly, CheckPeer, CheckHash, AskConsent
 
 VARIABLES clock,      \* node -> Lamport clock (claim_global_time)
@@ -116,7 +120,7 @@ Init ==
   /\ provC = [n \in Nodes |-> {}] /\ pendC = [n \in Nodes |-> {}]
   /\ blobs = [i \in 1..Len(Pre) |-> [by |-> Pre[i].by, pk |-> i, ans |-> Pre[i].ans]]
   /\ db = [n \in Nodes |-> {[h |-> i, key |-> i, from |-> Pre[i].by, gt |-> 0, map |-> {}] :
-                            i \in {j \in 1..Len(Pre) : Pre[j].owner = n}}]
+                            i \in {j \in 1..Len(Pre) : Pre[j].owner = n /\ n \in Honest}}]
   /\ cached = [n \in Nodes |-> {}]
   /\ askA = [n \in Nodes |-> <<>>] /\ askV = [n \in Nodes |-> <<>>]
   /\ ver = <<>> /\ net = {} /\ now = 0 /\ nkeys = Len(Pre) /\ nhon = 0
@@ -230,7 +234,8 @@ OnChunk(m, keep) ==
 (* ------------------------------------------ verification flow -------------------------------------------- *)
 Verify(n, p, h) ==
   /\ n \in Verifiers /\ p \in Nodes \ {n} /\ h \in 1..Len(blobs) /\ Len(ver) < MaxVer
-  \* explored only while no verification of h is pending at n (see DESIGN limits): both caches are free
+  \* explored only while no verification of h is pending at n: both caches are free (a second call while one is pending
+  \* is refused by RequestCache.add and re-uses the first call's caches; not modelled)
   /\ ~\E c \in provC[n] : c.h = h
   /\ ~\E c \in verC[n] : c.h = h
   /\ LET v == Len(ver) + 1
@@ -381,12 +386,20 @@ Tick(d) ==
 AdvBlobs == {b \in 1..Len(blobs) : blobs[b].by \in Adv}
 AdvMsgs ==
   UNION {
-    {ChunkMsg(a, n, g, h, i, Junk(i)) : g \in {c.gt : c \in reqC[n]} \cup {0},
-                                        h \in {c.h : c \in verC[n]} \cup AdvBlobs, i \in 0..(NChunks - 1)}
-    \cup {ChunkMsg(a, n, g, b, i, Data(b, i)) : g \in {c.gt : c \in reqC[n]} \cup {0}, b \in AdvBlobs,
-                                                i \in 0..(NChunks - 1)}
-    \cup {RespMsg(a, n, 0, ch, r) : ch \in advKnows \cap {p.ch : p \in pendC[n]}, r \in 0..3}
-    \cup {ChalMsg(a, n, 0, h, ch) : h \in Hashes(n), ch \in advKnows \cup {<<2, 0, 1>>}}
+    (IF "junk" \in AdvKinds
+     THEN {ChunkMsg(a, n, g, h, i, Junk(i)) : g \in {c.gt : c \in reqC[n]} \cup {0},
+                                              h \in {c.h : c \in verC[n]} \cup AdvBlobs, i \in 0..(NChunks - 1)}
+     ELSE {})
+    \cup (IF "data" \in AdvKinds
+          THEN {ChunkMsg(a, n, g, b, i, Data(b, i)) : g \in {c.gt : c \in reqC[n]} \cup {0}, b \in AdvBlobs,
+                                                      i \in 0..(NChunks - 1)}
+          ELSE {})
+    \cup (IF "resp" \in AdvKinds
+          THEN {RespMsg(a, n, 0, ch, r) : ch \in advKnows \cap {p.ch : p \in pendC[n]}, r \in AdvResps}
+          ELSE {})
+    \cup (IF "chal" \in AdvKinds
+          THEN {ChalMsg(a, n, 0, h, ch) : h \in Hashes(n), ch \in advKnows \cup {<<2, 0, 1>>}}
+          ELSE {})
     : a \in Adv, n \in Honest}
 
 AdvSend(m) == /\ bud.adv > 0 /\ m \in AdvMsgs /\ m \notin net
